@@ -235,3 +235,34 @@ Ltac wire_with z bw Hbw Hle :=
       apply (wiring_eq (fun i => byte_at z i) bw Hbw Hle 64%nat);
       vm_compute; reflexivity
   end.
+
+(* environment restricted to the first k bytes (the ones a return point
+   actually reads): nothing is assumed about later bytes *)
+Definition envk (z : list N) (k : nat) : nat -> N :=
+  fun i => if (i <? k)%nat then byte_at z i else 0.
+
+Lemma envk_ok8 z k : (forall i, (i < k)%nat -> byte_at z i < 256) ->
+  forall i, envk z k i < 2 ^ bw8 i.
+Proof.
+  intros H i. unfold envk, bw8. change (2 ^ 8) with 256.
+  destruct (Nat.ltb_spec i k) as [L|G]; [apply H; exact L | lia].
+Qed.
+
+Lemma envk_ok7 z k j : (forall i, (i < k)%nat -> byte_at z i < 256) -> byte_at z j < 128 ->
+  forall i, envk z k i < 2 ^ bw7 j i.
+Proof.
+  intros H Hj i. unfold envk, bw7.
+  destruct (Nat.ltb_spec i k) as [L|G]; destruct (Nat.eqb_spec i j) as [->|Hne];
+    change (2 ^ 7) with 128; change (2 ^ 8) with 256; try lia.
+  apply H. exact L.
+Qed.
+
+Ltac wire_k z k bw Hbw Hle :=
+  lazymatch goal with
+  | |- ?l = ?r =>
+      let el := reify z l in
+      let er := reify z r in
+      change (eval (envk z k) el = eval (envk z k) er);
+      apply (wiring_eq (envk z k) bw Hbw Hle 64%nat);
+      vm_compute; reflexivity
+  end.
